@@ -732,8 +732,9 @@ async fn accept(
         #[cfg(feature = "graceful-shutdown")]
         let shutdown_manager = Arc::clone(shutdown_manager);
         let _task = spawn(async move {
+            // released when this task ends, also if the handler panics
             #[cfg(feature = "graceful-shutdown")]
-            shutdown_manager.add_connection();
+            let _connection = shutdown::ConnectionGuard::new(&shutdown_manager);
             let _result = handle_connection(stream, addr, descriptor, || {
                 #[cfg(feature = "async-networking")]
                 {
@@ -752,8 +753,6 @@ async fn accept(
                 }
             })
             .await;
-            #[cfg(feature = "graceful-shutdown")]
-            shutdown_manager.remove_connection();
         })
         .await;
     }
